@@ -12,10 +12,12 @@ def apply(ctx, W):
     fn, u = fn_into_verus(ctx, fw, "ItemDefinition::resolved", ret="r", tags=U, ensures=[
         "r == (match self.state { ItemState::Resolved(x) => Some(&x), _ => None::<&ItemStateResolved> })"])
     fn, u = fn_into_verus(ctx, fw, "ItemDefinition::size", ret="r", tags=U, ensures=[
-        "r == (match self.state { ItemState::Resolved(x) => Some(x.size), _ => None::<usize> })"])
+        "r == (match self.state { ItemState::Resolved(x) => Some(x.size), _ => None::<usize> })",
+        ("(r is Some) == (self.state is Resolved)", ("C10",), "size-iff-resolved")])
     closure_annot(ctx, fw, u, fw.closure(fn, 1), params=["r: &ItemStateResolved"], ret="o: usize", ensures=["o == r.size"])
     fn, u = fn_into_verus(ctx, fw, "ItemDefinition::alignment", ret="r", tags=U, ensures=[
-        "r == (match self.state { ItemState::Resolved(x) => Some(x.alignment), _ => None::<usize> })"])
+        "r == (match self.state { ItemState::Resolved(x) => Some(x.alignment), _ => None::<usize> })",
+        ("(r is Some) == (self.state is Resolved)", ("C10",), "alignment-iff-resolved")])
     closure_annot(ctx, fw, u, fw.closure(fn, 1), params=["r: &ItemStateResolved"], ret="o: usize", ensures=["o == r.alignment"])
     fn_into_verus(ctx, fw, "Type::is_array", ret="r", tags=U, ensures=["r == (self is Array)"])
 
@@ -28,15 +30,17 @@ def apply(ctx, W):
     closure_annot(ctx, fw, u, fw.closure(fn, 2), params=["s: usize"], ret="r: Option<usize>",
                   ensures=["r == (if s * *count <= usize::MAX { Some((s * *count) as usize) } else { None::<usize> })"])
     fn, u = fn_into_verus(ctx, fw, "Type::alignment", ret="r", tags=U, decreases="self", ensures=[
-        ("r == ty_align(*self, type_registry)", L)])
+        ("r == ty_align(*self, type_registry)", L),
+        ("(r is Some) == (ty_align(*self, type_registry) is Some)", ("C10",), "aligned-iff")])
     closure_annot(ctx, fw, u, fw.closure(fn, 1), params=["t: &ItemDefinition"], ret="r: Option<usize>",
                   ensures=["r == (match t.state { ItemState::Resolved(x) => Some(x.alignment), _ => None::<usize> })"])
 
     # ------------------------------------------------------------------ semantic/type_registry.rs
     fw = W.file("semantic/type_registry.rs")
     fn_into_verus(ctx, fw, "TypeRegistry::pointer_size", ret="r", tags=U, ensures=["r == self.pointer_size"])
-    fn_into_verus(ctx, fw, "TypeRegistry::get", ret="r", tags=U, ensures=[
-        "r == (if self.types@.contains_key(*item_path) { Some(&self.types@[*item_path]) } else { None::<&ItemDefinition> })"])
+    fn_into_verus(ctx, fw, "TypeRegistry::get", ret="r", tags=U + ("C06", "C07", "C10", "C11", "C14", "C19"), ensures=[
+        ("r == (if self.types@.contains_key(*item_path) { Some(&self.types@[*item_path]) } else { None::<&ItemDefinition> })",
+         L + ("C06", "C07", "C10", "C11", "C14", "C19"), "registry-get")])
 
     fn_gm, u_gm = fn_into_verus(ctx, fw, "TypeRegistry::get_mut", ret="r", tags=("C10", "C12", "C14"), ensures=[
         ("final(self).pointer_size == old(self).pointer_size", ("C10",), "get-mut-keeps-pointer-size"),
@@ -72,6 +76,10 @@ pub assume_specification [<Regions as Default>::default] () -> (r: Regions)
             ("all_sized(final(self).regions@, type_registry)", L),
             ("r is Some ==> ty_size(region.type_ref, type_registry) is Some", L),
             ("r is None ==> *final(self) == *old(self)", L),
+            # C10 / C03 consume *when* a region defers its type: only while its type is unsized (or the running address overflows)
+            ("""ty_size(region.type_ref, type_registry) is Some
+                    && old(self).last_address + ty_size(region.type_ref, type_registry)->0 <= usize::MAX ==> r is Some""", ("C10", "C03"), "push-defers-only-unsized"),
+            ("r is Some ==> ty_size(region.type_ref, type_registry) is Some", ("C10",), "push-needs-sized"),
             ("""r is Some ==> (if ty_size(region.type_ref, type_registry) == Some(0usize) && region.type_ref is Array {
                         *final(self) == *old(self)
                     } else {
